@@ -1,7 +1,7 @@
 (* Properties/C11.v — distances and paths are valid walks of minimal length (C11).
    spec_C11 compares every reported distance with [sd] over the reported parent links and checks
    every reported path link by link; these theorems say what [sd] is. *)
-From HpoV Require Import Gen.Consts Model.Base Model.Group Model.Onto Model.Query Run.World Run.C01 Run.C11 Proofs.C11P Proofs.ClosureP Proofs.DistP.
+From HpoV Require Import Gen.Consts Model.Base Model.Group Model.Onto Model.Query Run.World Run.C01 Run.C11 Proofs.C11P Proofs.ClosureP Proofs.DistP Proofs.DistTermP Proofs.PathTermP Proofs.QgoodP Model.Script.
 
 Theorem C11_distance_is_a_chain_length : forall ts b fuel a d, sd fuel ts a b = Some d ->
   exists l, is_chain ts a l = true /\ last l a = b /\ Nlen l = d.
@@ -45,6 +45,55 @@ Theorem C11_model_path_is_shortest : forall o (G : qgood o) fuel ta tb r, In ta 
   forall n, chain (o_arena o) (t_id ta) n (t_id tb) -> exists l, r = Some l /\ (length l <= n)%nat.
 Proof. exact path_anc_minimal. Qed.
 
+(* the hypothesis [qgood] of all theorems of this file (unique ids in range, links resolve, sorted
+   groups, every ancestor cache exactly the transitive closure) holds of EVERY ontology a Builder
+   script produces, whatever calls fail on the way: the theorems are about reachable states *)
+Theorem C11_builder_ontologies_are_qgood : forall icf s codes o, run_script icf s = Ok (codes, Ok o) -> qgood o.
+Proof. exact run_script_qgood. Qed.
+
+(* ---- distance_to_term / path_to_term (transcription level) ---- *)
+
+(* the distance between two terms is realised by two upward chains that meet ... *)
+Theorem C11_model_term_distance_is_realised : forall o, qgood o -> forall ta tb d,
+  In ta (ar_terms (o_arena o)) -> In tb (ar_terms (o_arena o)) -> dist_term o ta tb = Ok (Some d) ->
+  exists c n1 n2, chain (o_arena o) (t_id ta) n1 c /\ chain (o_arena o) (t_id tb) n2 c /\ N.to_nat d = (n1 + n2)%nat.
+Proof. exact dist_term_sound. Qed.
+
+(* ... and it is the minimum over ALL meeting points (a value is returned as soon as there is one) *)
+Theorem C11_model_term_distance_is_minimal : forall o, qgood o -> forall ta tb r,
+  In ta (ar_terms (o_arena o)) -> In tb (ar_terms (o_arena o)) -> dist_term o ta tb = Ok r ->
+  forall c n1 n2, chain (o_arena o) (t_id ta) n1 c -> chain (o_arena o) (t_id tb) n2 c ->
+  exists d, r = Some d /\ (N.to_nat d <= n1 + n2)%nat.
+Proof. exact dist_term_minimal. Qed.
+
+Theorem C11_model_term_distance_none : forall o, qgood o -> forall ta tb,
+  In ta (ar_terms (o_arena o)) -> In tb (ar_terms (o_arena o)) -> dist_term o ta tb = Ok None ->
+  forall c n1 n2, chain (o_arena o) (t_id ta) n1 c -> ~ chain (o_arena o) (t_id tb) n2 c.
+Proof. exact dist_term_none. Qed.
+
+Theorem C11_model_term_distance_self : forall o, qgood o -> forall ta r,
+  In ta (ar_terms (o_arena o)) -> dist_term o ta ta = Ok r -> r = Some 0.
+Proof. exact dist_term_self. Qed.
+
+Theorem C11_model_term_distance_symmetric : forall o, qgood o -> forall ta tb r,
+  In ta (ar_terms (o_arena o)) -> In tb (ar_terms (o_arena o)) ->
+  dist_term o ta tb = Ok r -> dist_term o tb ta = Ok r.
+Proof. exact dist_term_symmetric. Qed.
+
+(* the path between two distinct terms is a walk along is_a links (up to a common ancestor, then
+   down) that ends in the target ... *)
+Theorem C11_model_term_path_is_a_walk : forall o (G : qgood o) ta tb l,
+  In ta (ar_terms (o_arena o)) -> In tb (ar_terms (o_arena o)) -> t_id ta <> t_id tb ->
+  path_term o ta tb = Ok (Some l) -> walk o (t_id ta) l /\ last l (t_id ta) = t_id tb.
+Proof. exact path_term_sound. Qed.
+
+(* ... and no two upward chains that meet are shorter *)
+Theorem C11_model_term_path_is_shortest : forall o (G : qgood o) ta tb l,
+  In ta (ar_terms (o_arena o)) -> In tb (ar_terms (o_arena o)) -> t_id ta <> t_id tb ->
+  path_term o ta tb = Ok (Some l) ->
+  forall c n1 n2, chain (o_arena o) (t_id ta) n1 c -> chain (o_arena o) (t_id tb) n2 c -> (length l <= n1 + n2)%nat.
+Proof. exact path_term_minimal. Qed.
+
 Print Assumptions C11_distance_is_a_chain_length.
 Print Assumptions C11_distance_is_minimal.
 Print Assumptions C11_chain_is_walk.
@@ -53,3 +102,11 @@ Print Assumptions C11_model_distance_is_minimal.
 Print Assumptions C11_model_distance_none.
 Print Assumptions C11_model_path_is_a_chain.
 Print Assumptions C11_model_path_is_shortest.
+Print Assumptions C11_model_term_distance_is_realised.
+Print Assumptions C11_model_term_distance_is_minimal.
+Print Assumptions C11_model_term_distance_none.
+Print Assumptions C11_model_term_distance_self.
+Print Assumptions C11_model_term_distance_symmetric.
+Print Assumptions C11_model_term_path_is_a_walk.
+Print Assumptions C11_model_term_path_is_shortest.
+Print Assumptions C11_builder_ontologies_are_qgood.
